@@ -11,7 +11,7 @@ import ast
 from ..engine import rule
 from ..model import Undecided
 from ..cfg import dotted, call_name, is_call, simple_name, unparse, const_value, contains, enclosing, find_all
-from ..flow import Defs, depends, try_const
+from ..flow import expand, Defs, depends, try_const
 from ..util import keyword, returns_of, calls_in, inside, order_key
 
 NOT_DECIDED = 'torn writes, directory states after a crash, durability (fsync), non-POSIX rename semantics'
@@ -24,8 +24,8 @@ THOROUGH_EXTRA = ['mapproxy/cache/tile.py', 'mapproxy/cache/base.py', 'mapproxy/
                   'mapproxy/seed/cleanup.py', 'mapproxy/util/lock.py']
 
 
-def write_mode(call, repo=None, mod=None):
-    """is this call a write-capable open?  -> description or None"""
+def write_mode(call, repo=None, mod=None, defs=None):
+    """is this call a write-capable open?  -> description or None (mode / flags bound to a local are followed; unknown = write-capable)"""
     n = call_name(call) or ''
     if n in ('open', 'io.open', 'codecs.open'):
         mode = keyword(call, 'mode', 1)
@@ -37,9 +37,14 @@ def write_mode(call, repo=None, mod=None):
         return None
     if n == 'os.open':
         flags = call.args[1] if len(call.args) > 1 else None
-        if flags is not None and contains(flags, lambda x: isinstance(x, ast.Attribute) and x.attr in (
-                'O_WRONLY', 'O_RDWR', 'O_CREAT', 'O_APPEND', 'O_TRUNC')):
+        if flags is None:
+            return None
+        forms = expand(flags, defs) if defs is not None else [flags]
+        if any(contains(e, lambda x: isinstance(x, ast.Attribute) and x.attr in ('O_WRONLY', 'O_RDWR', 'O_CREAT', 'O_APPEND', 'O_TRUNC'))
+               for e in forms):
             return 'os.open(%s)' % unparse(flags)
+        if not any(contains(e, lambda x: isinstance(x, ast.Attribute) and x.attr.startswith('O_')) for e in forms):
+            return 'os.open(flags=?)'
         return None
     if n == 'os.fdopen':
         mode = keyword(call, 'mode', 1)
@@ -65,8 +70,9 @@ def c06a(ctx):
     for rel in mods:
         m = ctx.repo.mod(rel)
         for fn in sorted(ctx.repo.fns_in(rel + ':'), key=lambda f: f.qn):
+            fdefs = Defs(fn.node)
             for c in sorted([x for x in fn.walk() if isinstance(x, ast.Call)], key=order_key):
-                w = write_mode(c)
+                w = write_mode(c, defs=fdefs)
                 if not w:
                     continue
                 n += 1
@@ -99,31 +105,29 @@ def c06a(ctx):
         raise Undecided('only %d write-capable opens found in the storage modules' % n)
 
 
-def _posix_branch(fn):
-    """statements of write_atomic's POSIX branch"""
-    for st in fn.node.body:
-        if isinstance(st, ast.If) and contains(st.test, lambda x: isinstance(x, ast.Attribute) and x.attr == 'platform'):
-            neg = isinstance(st.test, ast.UnaryOp) and isinstance(st.test.op, ast.Not)
-            winfirst = contains(st.test, lambda x: isinstance(x, ast.Constant) and x.value == 'win')
-            if neg and winfirst:
-                return st.body
-            if winfirst:
-                return st.orelse
-    return fn.node.body
+def _posix_nodes(fn):
+    """CFG nodes of write_atomic that are reachable when the platform test says "not Windows" """
+    g = fn.cfg
+    win = g.guard_edges(lambda at: contains(at.expr, lambda x: isinstance(x, ast.Attribute) and x.attr == 'platform') and
+                        contains(at.expr, lambda x: isinstance(x, ast.Constant) and x.value == 'win'), True)
+    return g.reachable(0, skip_edges=win)
 
 
 @rule('C06.b', floor=7)
 def c06b(ctx):
     fn = ctx.fn(FS + ':write_atomic')
-    body = _posix_branch(fn)
-    wrap = ast.Module(body=body, type_ignores=[])
+    g = fn.cfg
+    posix = _posix_nodes(fn)
     defs = Defs(fn.node)
     p_final = fn.params[0]
-    renames = [x for st in body for x in ast.walk(st) if is_call(x, 'os.rename', 'os.replace')]
+
+    def calls(*names):
+        return [(n, x) for n, x in g.find(lambda x: is_call(x, *names)) if n in posix]
+    renames = calls('os.rename', 'os.replace')
     if len(renames) != 1:
         ctx.bad('write_atomic:rename', 'expected exactly one os.rename/os.replace in the POSIX branch, found %d' % len(renames), fn)
         return
-    rn = renames[0]
+    rnn, rn = renames[0]
     src, dst = rn.args[0], rn.args[1]
     # 1 temp = filename + non-empty suffix
     tmpdefs = [v for v, sel in defs.of(unparse(src))] if isinstance(src, ast.Name) else []
@@ -135,26 +139,28 @@ def c06b(ctx):
     rnd = bool(tmpdefs) and all(contains(v, lambda x: is_call(x, 'random.randint', 'randint', 'uuid4', 'getpid', 'mkstemp'))
                                 for v in tmpdefs)
     ctx.check(rnd, 'write_atomic:temp-unique', 'temp name contains a random component (concurrent writers do not share it)', fn, rn)
-    # 2 O_EXCL
-    opens = [x for st in body for x in ast.walk(st) if is_call(x, 'os.open')]
-    ok = len(opens) == 1 and unparse(opens[0].args[0]) == unparse(src) and \
-        contains(opens[0].args[1], lambda x: isinstance(x, ast.Attribute) and x.attr == 'O_EXCL') and \
-        contains(opens[0].args[1], lambda x: isinstance(x, ast.Attribute) and x.attr == 'O_CREAT')
+    # 2 O_EXCL (the flags may be bound to a local first)
+    opens = [x for n, x in calls('os.open')]
+    flags = expand(opens[0].args[1], defs) if len(opens) == 1 and len(opens[0].args) > 1 else None
+    ok = len(opens) == 1 and unparse(opens[0].args[0]) == unparse(src) and flags is not None and \
+        any(contains(e, lambda x: isinstance(x, ast.Attribute) and x.attr == 'O_EXCL') for e in flags) and \
+        any(contains(e, lambda x: isinstance(x, ast.Attribute) and x.attr == 'O_CREAT') for e in flags)
     ctx.check(ok, 'write_atomic:excl-create', 'the temp file is created with O_CREAT|O_EXCL', fn, opens[0] if opens else rn,
               fail='the temp file is not created exclusively (O_EXCL missing): two writers can share a temp file')
-    # 3 data written inside a with (or try/finally close) that precedes the rename
-    writes = [x for st in body for x in ast.walk(st) if is_call(x, 'write') and x.args and unparse(x.args[0]) == fn.params[1]]
+    # 3 data written inside a with (or followed by close()) that is complete before the rename
+    writes = [(n, x) for n, x in calls('write') if x.args and unparse(x.args[0]) == fn.params[1]]
     ok = False
     detail = 'no f.write(data) found'
     if writes:
-        w = enclosing(writes[0], ast.With)
+        wn, wc = writes[0]
+        w = enclosing(wc, ast.With)
         if w is not None:
-            ok = not inside(rn, w) and rn.lineno > w.end_lineno and _same_block_after(w, rn)
+            ok = not inside(rn, w) and g.dominates(wn, rnn)
             detail = 'os.rename is inside the `with` that writes the data (rename before close/flush)' if inside(rn, w) \
-                else 'rename does not follow the with block'
+                else 'the rename is not preceded by the with block that writes the data'
         else:
-            closes = [x for st in body for x in ast.walk(st) if is_call(x, 'close')]
-            ok = bool(closes) and all(c.lineno < rn.lineno for c in closes) and writes[0].lineno < closes[0].lineno
+            closes = calls('close')
+            ok = bool(closes) and all(g.dominates(c, rnn) for c, _ in closes) and all(g.dominates(wn, c) and c != wn for c, _ in closes)
             detail = 'data is written without a `with`/close() that completes before the rename'
     ctx.check(ok, 'write_atomic:close-before-rename', 'the data is written and the handle closed before os.rename', fn, rn, fail=detail)
     # 4 rename temp -> parameter
